@@ -978,6 +978,59 @@ func perturb(cfg *Config, r *hx.Rng) string {
 	}
 }
 
+// dedupKeys removes duplicate keys inside every Go map of the configuration (fields, arguments, input fields, enum
+// values, directive arguments): a Go map cannot hold them; the builder would let the last one win, so the last is kept.
+func dedupKeys(c *Config) {
+	dedupArgs := func(as []ArgC) []ArgC {
+		last := map[string]int{}
+		for i, a := range as {
+			last[a.Name] = i
+		}
+		out := as[:0:0]
+		for i, a := range as {
+			if last[a.Name] == i {
+				out = append(out, a)
+			}
+		}
+		if out == nil {
+			out = []ArgC{}
+		}
+		return out
+	}
+	for ti := range c.Types {
+		t := &c.Types[ti]
+		last := map[string]int{}
+		for i, f := range t.Fields {
+			last[f.Name] = i
+		}
+		fs := []FieldC{}
+		for i, f := range t.Fields {
+			if last[f.Name] == i {
+				f.Args = dedupArgs(f.Args)
+				fs = append(fs, f)
+			}
+		}
+		t.Fields = fs
+		t.InputFields = dedupArgs(t.InputFields)
+		lastV := map[string]int{}
+		for i, v := range t.Values {
+			lastV[v.Name] = i
+		}
+		vs := []ValC{}
+		for i, v := range t.Values {
+			if lastV[v.Name] == i {
+				vs = append(vs, v)
+			}
+		}
+		t.Values = vs
+	}
+	for _, d := range c.Directives {
+		if d != nil {
+			d.Args = dedupArgs(d.Args)
+		}
+	}
+}
+
 func stripNN(t *TR) *TR {
 	if t != nil && t.K == "nonNull" {
 		return t.Of
